@@ -806,6 +806,46 @@ func main() {
 		w("def uu_randomUnderMutex : Bool := %v", ok && uses > 0)
 	}
 
+	// ---------------------------------------------------------------- translated decision functions
+	w("\n-- straight-line decision functions translated statement by statement (tools/extract/translate.go)")
+	dren := map[string]string{"d.year": "dy", "d.month": "dm", "d.day": "dd", "e.year": "ey", "e.month": "em", "e.day": "ed"}
+	dsig := "(dy : Int) (dm dd : Nat) (ey : Int) (em ed : Nat) : Bool"
+	w("%s", translateFunc(d, "Date.After", "date_After", dsig, dren, nil))
+	w("%s", translateFunc(d, "Date.Before", "date_Before", dsig, dren, nil))
+	w("%s", translateFunc(d, "Date.Equal", "date_Equal", dsig, dren, nil))
+	w("%s", translateFunc(d, "Date.IsZero", "date_IsZero", "(dy : Int) (dm dd : Nat) : Bool", dren, nil))
+	w("%s", translateFunc(d, "validDate", "date_validDate", "(year month day : Int) : Bool",
+		map[string]string{"year": "year", "month": "month", "day": "day"}, nil))
+	w("%s", translateFunc(s, "Ver.Compare", "sem_Compare",
+		"(cmpPre : List Nat → List Nat → Int) (vM vm vp : Nat) (vpre : List Nat) (wM wm wp : Nat) (wpre : List Nat) : Int",
+		map[string]string{"v.Major": "vM", "v.Minor": "vm", "v.Patch": "vp", "v.PreRelease": "vpre",
+			"ver.Major": "wM", "ver.Minor": "wm", "ver.Patch": "wp", "ver.PreRelease": "wpre"},
+		map[string]string{"ComparePreRelease": "cmpPre"}))
+	w("%s", translateFunc(u, "parseDigit", "uu_parseDigit", "(digit : Nat) (allowUpperCase : Bool) : Nat × Bool",
+		map[string]string{"digit": "digit", "allowUpperCase": "allowUpperCase"}, nil))
+	w("%s", translateFunc(r, "parseGroup", "roman_parseGroup", "(input : List Nat) (unit digit5 digit10 : Nat) : Nat",
+		map[string]string{"input": "input", "unit": "unit", "digit5": "digit5", "digit10": "digit10"}, nil))
+	tk := load(repo, "test")
+	w("%s", translateFunc(tk, "isForMarshal", "test_isForMarshal", "(c : Nat) : Bool", map[string]string{"c": "c"}, nil))
+	w("%s", translateFunc(tk, "isForUnmarshal", "test_isForUnmarshal", "(c : Nat) : Bool", map[string]string{"c": "c"}, nil))
+
+	// structure facts for C17: unmarshal methods assign through the receiver only after every check
+	{
+		type m struct {
+			p    *pkg
+			name string
+		}
+		for _, x := range []m{{d, "Date.UnmarshalBinary"}, {d, "Date.UnmarshalText"}, {r, "Number.UnmarshalText"}, {s, "Ver.UnmarshalText"},
+			{z, "Size.UnmarshalText"}, {z, "Size.UnmarshalJSON"}, {u, "ID.UnmarshalText"}} {
+			fd := x.p.funcs[x.name]
+			ok := fd != nil && assignsAfterChecks(fd)
+			if fd == nil {
+				miss("%s.%s not found", x.p.name, x.name)
+			}
+			w("def %s_%s_assignsAfterChecks : Bool := %v", x.p.name, strings.ReplaceAll(x.name, ".", "_"), ok)
+		}
+	}
+
 	w("\nend U.Gen")
 
 	if len(missing) > 0 {
@@ -818,6 +858,77 @@ func main() {
 		fmt.Fprintln(os.Stderr, err)
 		os.Exit(3)
 	}
+}
+
+// recvName returns the receiver identifier of a method declaration ("" if none).
+func recvName(fd *ast.FuncDecl) string {
+	if fd.Recv == nil || len(fd.Recv.List) != 1 || len(fd.Recv.List[0].Names) != 1 {
+		return ""
+	}
+	return fd.Recv.List[0].Names[0].Name
+}
+
+// isRecvAssign reports whether st assigns through the receiver: `*r = …` or `r.field = …`.
+func isRecvAssign(st ast.Stmt, recv string) bool {
+	as, ok := st.(*ast.AssignStmt)
+	if !ok {
+		return false
+	}
+	for _, l := range as.Lhs {
+		switch l := l.(type) {
+		case *ast.StarExpr:
+			if id, ok := l.X.(*ast.Ident); ok && id.Name == recv {
+				return true
+			}
+		case *ast.SelectorExpr:
+			if id, ok := l.X.(*ast.Ident); ok && id.Name == recv {
+				return true
+			}
+		}
+	}
+	return false
+}
+
+// assignsAfterChecks: every assignment through the receiver is a top-level statement of the method body
+// and no `if` statement and no error return follows the first of them — i.e. a call that returns an
+// error has not touched the receiver.
+func assignsAfterChecks(fd *ast.FuncDecl) bool {
+	recv := recvName(fd)
+	if recv == "" || fd.Body == nil {
+		return false
+	}
+	first := -1
+	for i, st := range fd.Body.List {
+		if isRecvAssign(st, recv) {
+			if first < 0 {
+				first = i
+			}
+			continue
+		}
+		nested := false
+		ast.Inspect(st, func(n ast.Node) bool {
+			if s, ok := n.(ast.Stmt); ok && s != st && isRecvAssign(s, recv) {
+				nested = true
+			}
+			return true
+		})
+		if nested {
+			return false
+		}
+		if first >= 0 {
+			switch st := st.(type) {
+			case *ast.IfStmt:
+				return false
+			case *ast.ReturnStmt:
+				for _, r := range st.Results {
+					if id, ok := r.(*ast.Ident); !ok || id.Name != "nil" {
+						return false
+					}
+				}
+			}
+		}
+	}
+	return first >= 0
 }
 
 func orZero(s string) string {
